@@ -21,7 +21,7 @@ class C03(F.Check):
     ]
 
     def bounds(self):
-        return {"stored values": "all 2^w values per rep (no bound)", "reps": F.INT_REPS,
+        return {"stored values": "all 2^w values per rep (no bound)", "reps": F.INT_REPS + F.TWIN_INT_REPS,
                 "factors": "structured grid per rep, see DESIGN.md section 5", "unwind": 0, "inline_depth": 0}
 
     def kernels(self):
@@ -31,13 +31,18 @@ class C03(F.Check):
 
         def unit(n):
             return mag_unit(n)
-        for ct in F.INT_REPS:
-            for i, (n, d) in enumerate(M.factor_grid(ct, self.tier, self.rng)):
+        for ct in F.INT_REPS + F.TWIN_INT_REPS:
+            grid = M.factor_grid(ct, self.tier, self.rng)
+            if ct in F.TWIN_INT_REPS and self.tier == "quick":
+                # long long / unsigned long long are distinct types from int64_t / uint64_t (long) with identical arithmetic: every third
+                # factor plus the pure-integer multipliers (type-identity dispatch is what can differ)
+                grid = [f for j, f in enumerate(grid) if j % 3 == 0 or (f[1] == 1 and f[0] in (3, 12, 1000))]
+            for i, (n, d) in enumerate(grid):
                 if not M.conversion_compiles(ct, n, d):
                     self.extra_cov["factors_outside_domain_by_model"] = self.extra_cov.get("factors_outside_domain_by_model", 0) + 1
                     continue
                 u1, u2 = unit(n), unit(d)
-                tag = "%s_%d" % (ct.replace("_t", ""), i)
+                tag = "%s_%d" % (ct.replace("_t", "").replace(" ", ""), i)
                 key = {"rep": ct, "N": n, "D": d}
                 q = "make_quantity<%s>(x)" % u1
                 names = {}
@@ -57,7 +62,7 @@ class C03(F.Check):
                     ks.append(k)
                     names["as"] = k.name
                 k = F.Kernel("c03_lossy_%s" % tag, "bool", [(ct, "x")],
-                             "return is_conversion_lossy(%s, %s{});" % (q, u2), key=key, mode="wrap", family="lossy")
+                             "return is_conversion_lossy(%s, %s{});" % (q, u2), key=key, mode="ub", family="lossy")
                 ks.append(k)
                 names["lossy"] = k.name
                 self.inst.append((ct, n, d, names, tag))
@@ -89,6 +94,12 @@ class C03(F.Check):
                 return pre, post
             obs.append(F.Ob("exact:" + tag, [("x", T.BV(w))], fn, key=key, kernels=list(names.values()),
                             note="not lossy(x) => conv(x)*D == x*N in Z, no trap (UB or unsigned wrap), coerce_as agrees"))
+
+            def cfn(K, x, names=names):
+                return T.TRUE, T.not_(K[names["lossy"]](x).ub)
+            obs.append(F.Ob("checker_noub:" + tag, [("x", T.BV(w))], cfn, key=key, kernels=[names["lossy"]],
+                            note="evaluating is_conversion_lossy itself executes no undefined behaviour for any x (otherwise 'lossy is false' "
+                                 "means nothing); unsigned wrap-around inside the checker is not UB and is judged by the exactness obligation"))
             for pn, pk in policy.items():
                 if K[pk].kernel.dropped:
                     self.extra_cov["unit_only_forms_refused_by_policy"] = self.extra_cov.get("unit_only_forms_refused_by_policy", 0) + 1
